@@ -339,6 +339,7 @@ func c07(c *Ctx) {
 	// ---- C07.4 agreement with the replicator ------------------------------------------------------------------------
 	c07Strings(c)
 	c07PrecommitBufferIndex(c)
+	c14ExportBuffer(c, "C07.8/export-buffer-under-lock")
 }
 
 // c07Strings: literals matched by the replicator against error texts, and stream-metadata keys.
